@@ -76,9 +76,9 @@ TEXTS["C02"] = {
     "technique": "model-based stateful property testing with fault injection and partition schedules (rapid state machine)",
 }
 TEXTS["C01"] = {
-    "level": "Model-based stateful testing of 1-3 real Raft peers with snapshotting and log truncation forced into short histories (threshold 2-5, trailing logs 0-2): pins of every type and option submitted at leaders and followers, unpins, restarts, stop/start of a follower while the others commit and snapshot (catch-up by snapshot install over non-empty state), offline reads; the model is the acknowledged sequence; the time-free invariant 'every live member's pinset is a prefix state' is evaluated after every step, plus leader visibility, caught-up equality with a generous bound, OfflineState equality and tracker hand-off by content. Exploration level.",
+    "level": "Model-based stateful testing of 1-3 real Raft peers with snapshotting and log truncation forced into short histories (threshold 2-5, trailing logs 0-2): pins of every type and option submitted at leaders and followers, unpins, restarts, stop/start of a follower while the others commit and snapshot (catch-up by snapshot install over non-empty state), offline reads; the model is the acknowledged sequence; the time-free invariant 'every live member's pinset is a prefix state' is evaluated after every step, plus leader visibility, caught-up equality with a generous bound, OfflineState equality and tracker hand-off by content. A second leg runs a single-member peer in a child process, kills it with SIGKILL at generated points (after an acknowledgement, a drawn number of microseconds into an in-flight operation, after the snapshot timer) and requires the restarted peer to list the acknowledged sequence (plus, optionally, the in-flight operation). Exploration level.",
     "note": "Real consensus/raft, dsstate, go-libp2p-raft FSM and hashicorp raft from /repo and the module cache, on loopback hosts and temp dirs. Schedules inside raft are explored by repetition only.",
-    "technique": "model-based stateful property testing with restart/stop faults (rapid state machine), oracle = prefix-of-committed-sequence model",
+    "technique": "model-based stateful property testing with restart/stop and kill -9 fault injection (rapid state machine), oracle = prefix-of-committed-sequence model",
 }
 TEXTS["C17"] = {
     "level": "Model-based stateful testing of up to 4 full Cluster instances with real Raft consensus: generated sequences of PeerAdd (fresh staging peer), Join, PeerRemove (issued at leader or follower, against leader, follower or the caller itself), no-op adds/removes, removal of the last peer, interleaved with pins and unpins, re-pinning on or off; after each step every running member must report the model's peerset and pinset (bounded polling), a new peer must list exactly the model pinset when it reports ready, a removed peer must shut itself down and clean its Raft data, and with re-pinning on no pin may stay allocated only to the removed peer. Exploration level: few, expensive histories.",
